@@ -40,6 +40,7 @@ func (X *Exec) execBuiltin(fr *Frame, ins ssa.Instruction, b *ssa.Builtin, cc *s
 	case "copy":
 		return X.execCopy(fr, ins, cc, st, args)
 	case "delete":
+		X.checkGuardedMapWrite(fr, st, cc.Args[0], ins.Pos())
 		mt := cc.Args[0].Type().Underlying().(*types.Map)
 		X.mapDelete(st, mt, args[0].T, X.asTerm(st, args[1], mt.Key()))
 		return nil
@@ -314,6 +315,27 @@ func (X *Exec) monitor(fr *Frame, st *State, T types.Type, field string, obj *Te
 			X.oblige(st, "mon", inv.Label, "monitor invariant of "+typeSpecKey(T)+"."+field+" re-established at unlock: "+inv.Src, pos, t)
 		}
 	}
+}
+
+// checkGuardedMapWrite: m[k] = v / delete(m, k) on a map read from a guarded field is a WRITE of what the mutex
+// guards (lock mode only): it needs the write lock, a read lock is not enough.
+func (X *Exec) checkGuardedMapWrite(fr *Frame, st *State, m ssa.Value, pos token.Pos) {
+	if !X.LockMode {
+		return
+	}
+	ld, ok := m.(*ssa.UnOp)
+	if !ok || ld.Op != token.MUL {
+		return
+	}
+	fa, ok := ld.X.(*ssa.FieldAddr)
+	if !ok {
+		return
+	}
+	v := fr.Regs[fa]
+	if v == nil || v.A == nil {
+		return
+	}
+	X.checkGuarded(fr, st, v.A, true, pos)
 }
 
 func typeSpecKey(T types.Type) string {
